@@ -66,12 +66,21 @@ class An:
     ERR_PRESERVING = ('core::result::Result::map', 'core::result::Result::map_err', 'core::result::Result::inspect',
                       'core::result::Result::inspect_err', 'core::result::Result::and_then')
 
-    def err_rooted_at(self, e, block):
+    def err_rooted_at(self, e, block, _depth=0):
         """like rooted_at, but also through Result adaptors that hand an Err on (map, map_err, inspect*, and_then):
         for error discipline `r.map_err(f)?` inspects r."""
         for _ in range(8):
             c = self.root_call(e)
             if c is None:
+                # a join point (result variable, the return slot of an inlined helper): the call's result is one of the
+                # values it can hold, and whoever inspects the variable inspects that result
+                base = e
+                while base[0] in ('field', 'variant', 'index', 'slice', 'cast', 'len'):
+                    base = base[1]
+                if base[0] == 'local' and _depth < 3:
+                    srcs = self.flow.sources(base)
+                    if len(srcs) >= 2 or (len(srcs) == 1 and srcs[0][2] != base):
+                        return any(self.err_rooted_at(se, block, _depth + 1) for (_, _, se) in srcs)
                 return False
             if c[3] == block:
                 return True
@@ -145,6 +154,15 @@ class An:
                     if t['o'] in self.cfg.succ[b]:
                         out.setdefault('otherwise', []).append((b, t['o']))
         return out
+
+    @staticmethod
+    def none_edges(ve):
+        """the edges on which an Option is None, from a variant-edge table (`0`, or `otherwise` when only Some is listed)"""
+        return list(ve.get('0', [])) + (list(ve.get('otherwise', [])) if '0' not in ve and '1' in ve else [])
+
+    @staticmethod
+    def some_edges(ve):
+        return list(ve.get('1', [])) + (list(ve.get('otherwise', [])) if '1' not in ve and '0' in ve else [])
 
     def stores_to_field(self, field, owner_suffix=None):
         """[(block, stmt idx, stmt)] assignments whose destination's last field projection is `field`."""
